@@ -360,3 +360,31 @@ Definition pick (s : state) : option label :=
 
 Definition quiescentb (s : state) : bool :=
   match pick s with None => true | Some _ => false end.
+
+(** ------------------------------------------------------------------ what justifies a response
+    (used by the theorems [cancelled_only_if_asked] and [responses_justified], and by Corr.v) *)
+Definition cancels (i : rid) (m : msg) : bool :=
+  match m with
+  | MNotif meth (Some j) => (meth =? "$/cancelRequest") && N.eqb j i
+  | _ => false
+  end.
+(** the session contains a `$/cancelRequest` for the id *)
+Definition cancel_in (i : rid) (l : list msg) : bool := existsb (cancels i) l.
+
+(** may a request with this method / params validity be answered with class [r]? *)
+Definition class_ok (c : cfg) (meth : string) (pok : bool) (r : rclass) : bool :=
+  match r with
+  | CNotInitialized => negb (meth =? "initialize")
+  | CMethodNotFound => negb (known c meth) && negb (meth =? "shutdown")
+  | CInvalidParams => negb pok
+  | COk => (meth =? "shutdown") || ((meth =? "initialize") && pok) || (known c meth && pok)
+  | CInternal | CCancelled => known c meth && pok && negb (meth =? "shutdown")
+  end.
+
+Definition justifies (c : cfg) (i : rid) (r : rclass) (m : msg) : bool :=
+  match m with
+  | MReq j meth pok => N.eqb j i && class_ok c meth pok r
+  | _ => false
+  end.
+(** the session contains a request with id [i] that may be answered with class [r] *)
+Definition justified (c : cfg) (msgs : list msg) (i : rid) (r : rclass) : bool := existsb (justifies c i r) msgs.
